@@ -19,6 +19,11 @@ class Undecided(Exception):
         self.span = span
 
 
+class ControlUndecided(Undecided):
+    """A jump (continue / break / return) the model cannot follow: must not be swallowed by the statement-level fallback —
+    it invalidates the whole enclosing loop (or function)."""
+
+
 # ---------------------------------------------------------------------------------------------------
 # values
 
@@ -129,11 +134,13 @@ class Rule:
             newv = self.value.expr.subst(m)
             if not gs:
                 return Num(newv)
-            if len(gs) == 1:
-                g = gs[0]
-                neg = {"<": ("<=", g[2], g[1]), "<=": ("<", g[2], g[1]), "=": ("!=", g[1], g[2]), "!=": ("=", g[1], g[2])}[g[0]]
-                return Num(newv.guarded([g]) + old.expr.guarded([neg]))
-            raise Undecided("overwrite under a conjunction of guards")
+            def neg_(g):
+                return {"<": ("<=", g[2], g[1]), "<=": ("<", g[2], g[1]), "=": ("!=", g[1], g[2]), "!=": ("=", g[1], g[2])}[g[0]]
+            # ¬(g1 ∧ g2 ∧ ..) as a disjoint union: ¬g1  ∪  g1∧¬g2  ∪  g1∧g2∧¬g3 ..
+            keep = Expr.zero()
+            for i_, g in enumerate(gs):
+                keep = keep + old.expr.guarded(list(gs[:i_]) + [neg_(g)])
+            return Num(newv.guarded(gs) + keep)
         raise Undecided("rule op %s" % self.op)
 
 
@@ -324,6 +331,9 @@ class Interp:
         self.trace = []
         self.early_returns = []
         self.recurrences = []
+        self.named_locals = {}
+        self.block_envs = []
+        self.self_opaque = set()
         self.write_log = []
         self.cur_env = None
         self.breaks = []
@@ -386,6 +396,8 @@ class Interp:
         for p, a in zip(params, args):
             if "pat" in p:
                 self.bind(p["pat"], a, e)
+        if self.depth == 0:
+            self.top_env = e
         self.depth += 1
         try:
             if self.depth > self.max_depth:
@@ -394,8 +406,15 @@ class Interp:
                 return self.eval(b["body"], e)
             except ReturnSignal as r:
                 return r.value
+            except ControlUndecided as cu:
+                raise Undecided("function body: %s" % cu.what, cu.span)
         finally:
             self.depth -= 1
+
+    def local_by_name(self, name):
+        """Final value of the top-level function's local called `name` (searches nested block environments is not possible after
+        they are gone, so locals are recorded when bound)."""
+        return self.named_locals.get(name)
 
     # ---- patterns -----------------------------------------------------------------------------
     def bind(self, pat, val, env):
@@ -521,6 +540,8 @@ class Interp:
 
     def e_block(self, e, env):
         benv = Interp.Env(env)
+        if self.depth == 1:
+            self.block_envs.append(benv)
         for s in e["stmts"]:
             self.stmt(s, benv)
         if "tail" in e:
@@ -537,6 +558,8 @@ class Interp:
                     self.bind_opaque(s["pat"], env, "uninit")
             else:
                 self.eval(s["e"], env)
+        except ControlUndecided:
+            raise
         except Undecided as u:
             self.note_undecided(u)
             # opaque fallback: every local this statement may define or modify becomes a named unknown
@@ -944,12 +967,12 @@ class Interp:
     def e_break(self, e, env):
         if self.in_transfer:
             raise BreakSignal()
-        raise Undecided("break outside a summarised loop", e.get("span"))
+        raise ControlUndecided("break inside a loop that is summarised, not executed", e.get("span"))
 
     in_transfer = False
 
     def e_continue(self, e, env):
-        raise Undecided("continue", e.get("span"))
+        raise ControlUndecided("continue inside a loop that is summarised, not executed", e.get("span"))
 
     # ---- for loops ------------------------------------------------------------------------------
     def for_loop(self, e, env):
@@ -987,19 +1010,79 @@ class Interp:
         try:
             benv = Interp.Env(env)
             elem = seq.at(k)
-            run_body(elem, benv)
+            try:
+                run_body(elem, benv)
+            except ControlUndecided as cu:
+                raise Undecided("loop body jumps (%s): the loop is not a plain reduction" % cu.what, cu.span)
+            except (ReturnSignal, BreakSignal):
+                raise Undecided("loop body leaves the loop early (return / break): not a plain reduction")
         finally:
             self.loops.pop()
             self.class_of_index = old
         # loop-carried dependence: a variable that is written by the loop and also read in it may observe earlier iterations
         written = set(var for (var, _p, _o, _v, _g, _b) in lc.effects)
         carried = sorted(v_ for v_ in (written & lc.reads) if v_ not in lc.inner_vars)
+        carried = [v_ for v_ in carried if v_ not in self.self_opaque]
+        # a dependence that the enclosing loop carries as well is analysed there (the recurrence belongs to the outermost loop)
+        if carried and self.loops and all(v_ not in self.loops[-1].inner_vars for v_ in carried):
+            self.loops[-1].reads |= set(carried)
+            carried = []
         if carried:
-            self.recurrences.append({"vars": carried, "binder": (k, cls), "guards": list(guards), "effects": list(lc.effects)})
-            raise Undecided("loop-carried dependence: the loop reads and writes %s (a recurrence, not a reduction)" % carried)
+            rec = {"vars": carried, "names": [self.var_names.get(v_, str(v_)) for v_ in carried], "binder": (k, cls), "guards": list(guards),
+                   "effects": list(lc.effects)}
+            self.recurrences.append(rec)
+            try:
+                self.recurrence_pass(seq, run_body, env, body_expr, carried, rec)
+            except Undecided as u2:
+                rec["pass2_error"] = u2.what
+            raise Undecided("loop-carried dependence: the loop reads and writes %s (a recurrence, not a reduction)" % rec["names"])
         # apply effects
         for (var, path, op, val, gs, bs) in lc.effects:
             self.apply_summarised(var, path, op, val, lc, gs, env, bs)
+
+    def recurrence_pass(self, seq, run_body, env, body_expr, carried, rec):
+        """Second evaluation of a loop with a loop-carried dependence: the carried arrays are read as named unknowns (their final
+        values), which turns the body's writes into the recurrence EQUATIONS of the loop; the reads are logged with the index guards
+        in force so that a rule can check that every read refers to an element written earlier."""
+        saved = {v_: env.get(v_) for v_ in carried}
+        reads = []
+        for v_ in carried:
+            cur = saved[v_]
+            name = self.var_names.get(v_, str(v_))
+            if isinstance(cur, Arr) and not hasattr(cur, "items"):
+                def base(*idx, _n=name):
+                    reads.append((_n, tuple(idx), [tuple(g) for g in self.current_guards()]))
+                    return Num(Expr.leaf(_n, *idx))
+                env.set(v_, Arr(cur.classes, base, name=name))
+            else:
+                raise Undecided("carried variable %s is not an array" % name)
+        k2 = fresh("i")
+        cls = seq.classes[0]
+        guards = seq.guards_fn(k2) if seq.guards_fn else []
+        lc2 = LoopCtx(k2, cls, guards, collect_bound_vars(body_expr) if body_expr is not None else set())
+        old = dict(self.class_of_index)
+        self.class_of_index = dict(old)
+        self.class_of_index[k2] = cls
+        self.loops.append(lc2)
+        for v_ in carried:
+            self.self_opaque.add(v_)
+        try:
+            try:
+                run_body(seq.at(k2), Interp.Env(env))
+            except ControlUndecided as cu:
+                raise Undecided("recurrence body jumps (%s)" % cu.what, cu.span)
+            except (ReturnSignal, BreakSignal):
+                raise Undecided("recurrence body leaves the loop early")
+        finally:
+            self.loops.pop()
+            self.class_of_index = old
+            for v_ in carried:
+                self.self_opaque.discard(v_)
+                env.set(v_, saved[v_])
+        rec["outer"] = (k2, cls, [tuple(g) for g in guards])
+        rec["equations"] = [(self.var_names.get(var, str(var)), tuple(path), op, val, [tuple(g) for g in gs], tuple(bs))
+                            for (var, path, op, val, gs, bs) in lc2.effects]
+        rec["reads"] = reads
 
     def apply_summarised(self, var, path, op, val, lc, gs, env, binders=()):
         k, cls = lc.binder, lc.cls
